@@ -31,7 +31,7 @@ from ..translate import c14 as tr
 PROPERTY = "C14"
 THEOREM_MODULE = "NemoVerif.Theorems.C14"
 RULE = ("program: 1-2 dialog flows (distinct start intents) + 0-2 subflows over user/bot/execute/set/if-else/while/"
-        "break/continue/do, nesting <= 4, plus dedicated nested-`do` chain programs (depth 2-3, inner call in last position); history: produced by walking the program with the reference interpreter, "
+        "break/continue/do, nesting <= 4, plus dedicated nested-`do` chain programs (depth 2-3, inner call in last position) and computation-loop programs (counters/accumulators, iterations without a blocking statement); history: produced by walking the program with the reference interpreter, "
         "following it or leaving it (other intent, other bot step, failed action, hide_prev_turn, restart) at a random "
         "point, then a random tail; decisions compared on every prefix. non-trivial = the program has a conditional or "
         "loop or subflow call AND the history reaches at least 3 decisions; distinct = distinct (program, history).")
@@ -285,6 +285,73 @@ def g_chain_program(rng, tier):
     if rng.random() < 0.3:
         mains.append({"name": "f1", "sub": False, "body": [{"u": nm.user()}, {"b": nm.bot()}]})
     return mains + flows
+
+
+def g_compute_program(rng, tier):
+    """Computation loops: `while` loops in which whole iterations run without reaching a blocking statement
+    (counters, accumulators, nested loops, a step under an `if` that is not taken in the first iterations,
+    break/continue after the increment), followed by if/else on the computed values.  Every loop is driven by
+    its own counter ($i/$j/$k, never assigned elsewhere) that is incremented unconditionally, so slides terminate."""
+    nm = Names()
+    lit = lambda n: {"lit": {"i": n}}  # noqa: E731
+    var = lambda v: {"var": v}  # noqa: E731
+    acc = ["t"] + VARS
+
+    def loop(depth, cvars):
+        c = cvars[0]
+        k = rng.choice([2, 3, 3, 4])
+        body = []
+        for _ in range(rng.choice([0, 1, 1, 2])):
+            a = rng.choice(acc)
+            r = rng.random()
+            if r < 0.5:
+                body.append({"set": [a, {"bin": ["add", var(a), var(c) if rng.random() < 0.6 else lit(rng.choice([1, 2]))]}]})
+            elif r < 0.8:
+                body.append({"if": [{"bin": [rng.choice(["eq", "lt", "ge"]), var(c), lit(rng.randrange(0, k))]},
+                                    [{"set": [a, {"bin": ["add", var(a), lit(1)]}]}],
+                                    [] if rng.random() < 0.5 else [{"set": [rng.choice(acc), {"bin": ["sub", var(a), lit(1)]}]}]]})
+            else:
+                body.append({"set": [a, var(c)]})
+        if rng.random() < 0.35:
+            # the only blocking statement of the loop sits under an `if` that is not taken in the first iterations
+            body.append({"if": [{"bin": ["eq", var(c), lit(rng.randrange(1, k))]}, [rng.choice([{"b": nm.bot()}, {"u": nm.user()}, {"x": [nm.act(), [], "r"]}])], []]})
+        if depth > 0 and len(cvars) > 1 and rng.random() < 0.3:
+            body += loop(depth - 1, cvars[1:])
+        body.append({"set": [c, {"bin": ["add", var(c), lit(1)]}]})
+        r = rng.random()
+        if r < 0.15:
+            body.append({"if": [{"bin": ["eq", var(c), lit(rng.randrange(1, k + 1))]}, [{"break": 1}], []]})
+        elif r < 0.3:
+            body.append({"if": [{"bin": ["lt", var(c), lit(rng.randrange(1, k + 1))]}, [{"continue": 1}], []]})
+            body.append({"set": [rng.choice(acc), {"bin": ["add", var(rng.choice(acc)), lit(1)]}]})
+        return [{"set": [c, lit(0)]}, {"while": [{"bin": ["lt", var(c), lit(k)]}, body]}]
+
+    def decide_on_values():
+        a = rng.choice(acc)
+        cond = {"bin": [rng.choice(["eq", "ge", "lt", "ne"]), var(a), lit(rng.choice([0, 1, 2, 3, 4, 6]))]}
+        return {"if": [cond, [{"b": nm.bot()}], [{"b": nm.bot()}] if rng.random() < 0.7 else []]}
+
+    init = [{"set": [a, lit(rng.choice([0, 0, 1]))]} for a in acc]
+    subs = []
+    main = [{"u": nm.user()}] + init
+    if rng.random() < 0.4:
+        main.append({"b": nm.bot()})
+    main += loop(2, ["i", "j", "k"])
+    main.append(decide_on_values())
+    for _ in range(rng.choice([0, 1, 1, 2])):
+        r = rng.random()
+        if r < 0.3:
+            main.append(rng.choice([{"b": nm.bot()}, {"u": nm.user()}, {"x": [nm.act(), [], "r"]}]))
+        elif r < 0.6:
+            main += loop(1, ["i", "j"])
+            main.append(decide_on_values())
+        elif not subs:
+            subs.append({"name": "s0", "sub": True, "body": loop(1, ["j", "k"]) + [decide_on_values()] + ([{"u": nm.user()}] if rng.random() < 0.4 else [])})
+            main.append({"do": "s0"})
+        else:
+            main.append(decide_on_values())
+    main.append({"b": nm.bot()})
+    return [{"name": "f0", "sub": False, "body": main}] + subs
 
 
 # ----------------------------------------------------------------------------- rendering to Colang 1.0
@@ -737,6 +804,7 @@ def _bots(stmts):
 def gen_cases(rng, tier):
     n_prog = 170 if tier == "quick" else 4000
     n_chain = 45 if tier == "quick" else 900
+    n_comp = 45 if tier == "quick" else 900
     n_llm = 70 if tier == "quick" else 1500
     cases = []
     for i in range(n_prog + n_chain):
@@ -750,6 +818,11 @@ def gen_cases(rng, tier):
             cases.append({"kind": kind, "flows": flows, "history": h, "seed": rng.randrange(1 << 30)})
     sub = random.Random(rng.randrange(1 << 30))
     cases.extend(g_llm_case(sub) for _ in range(n_llm))
+    sub2 = random.Random(rng.randrange(1 << 30))
+    for _ in range(n_comp):
+        flows = g_compute_program(sub2, tier)
+        for mode in ("follow", "follow", "leave"):
+            cases.append({"kind": "fn" if sub2.random() < 0.9 else "rt", "flows": flows, "history": g_history(sub2, flows, mode), "seed": sub2.randrange(1 << 30)})
     return cases
 
 
@@ -1259,7 +1332,8 @@ def run_impl(case):
         obs["cfgs_changed_by_use"] = (mc2 != mc) or (list(used_cfgs) != [f["name"] for f in case["flows"]])
         # (3) slide directly, at every head of every flow, with a context taken from the case
         slides = []
-        ctxs = [{}, {"x": 1, "y": 2, "z": 0, "r": True}, {"x": rng.choice([0, 2, 3]), "y": rng.choice([None, 1]), "z": rng.choice([1, "a"]), "r": rng.choice([0, None, "a"])}]
+        ctxs = [{}, {"x": 1, "y": 2, "z": 0, "r": True, "i": 0, "j": 0, "k": 0, "t": 0},
+                {"x": rng.choice([0, 2, 3]), "y": rng.choice([None, 1]), "z": rng.choice([1, "a"]), "r": rng.choice([0, None, "a"]), "i": 1, "j": rng.choice([0, 1]), "k": 0, "t": 5}]
         fresh_cfgs = load_configs(src)
         for fid, fc in fresh_cfgs.items():
             for head in range(len(fc.elements) + 1):
